@@ -17,9 +17,9 @@ type c20 struct{ base }
 func init() {
 	lib.Register(&c20{base{
 		id: "C20", level: "exploration",
-		technique: "runtime model-based monitor: random sequences of the public Result operations over a population of results (nil, empty, self, sharing messages) are executed on the real type and on a plain ordered-set model in lock-step; after every step every result is compared with its model (ordered errors, ordered warnings, match count, the four queries, AsError), so an aliasing write through an operand shows up at the step it happens",
-		rule: "one case = a population of 3-6 results (one of them possibly a nil pointer, used as operand and for queries only) and a sequence of 10-200 operations drawn from AddErrors / AddWarnings / Merge / MergeAsErrors / MergeAsWarnings (1-3 operands, self allowed) / Inc, with messages from a pool of 12 texts carried by 3 different error types and nil interfaces mixed in; distinct = FNV-64 of the operation trace; non-trivial = the trace contains a merge whose operand shares a message with its target, or a self-merge, or a later mutation of a merged operand",
-		assumptions: []string{"only the exported API of Result is used (pooled results are the business of C04)", "messages are compared by Error() text, as AddErrors does", "sampled sequences"},
+		technique: "runtime model-based monitor: random sequences of the public Result operations over a population of results (nil, empty, self, sharing messages) are executed on the real type and on a plain ordered-set model in lock-step; after every step every result is compared with its model (ordered errors, ordered warnings, match count, the four queries, AsError), so an aliasing write through an operand shows up at the step it happens; operands taken from the pool of results (verif hook VerifBorrowResult, as the validators produce them) are filled through the public methods and merged once, with the pool-ownership automaton on and poison-on-redeem in every other case, so a read of the operand after the merge gave it back is loud",
+		rule: "one case = a population of 3-6 results (one of them possibly a nil pointer, used as operand and for queries only) and a sequence of 10-200 operations drawn from AddErrors / AddWarnings / Merge / MergeAsErrors / MergeAsWarnings (1-3 operands, self allowed) / Inc / a merge of a freshly borrowed pooled operand, with messages from a pool of 12 texts carried by 3 different error types and nil interfaces mixed in; distinct = FNV-64 of the operation trace; non-trivial = the trace contains a merge whose operand shares a message with its target, or a self-merge, or a later mutation of a merged operand",
+		assumptions: []string{"only the exported API of Result is used on the results; pooled operands come from the verif hook and are never touched after the merge which gives them back (what validators do with pooled results is the business of C04)", "messages are compared by Error() text, as AddErrors does", "sampled sequences"},
 		quick: 40000, thorough: 1500000,
 	}})
 }
@@ -85,6 +85,10 @@ func (p *c20) Run(w *lib.Worker, idx int, r *lib.Rand) lib.Case {
 	}
 	var trace []string
 	nontrivial := false
+	pooledMerges := 0
+	validate.VerifReset()
+	validate.VerifConfigure(validate.VerifConfig{Track: true, Poison: idx%2 == 0})
+	defer validate.VerifConfigure(validate.VerifConfig{})
 	merged := map[int]map[int]bool{} // target -> operands merged into it
 	steps := r.Range(10, 200)
 	c := lib.Case{Evals: steps}
@@ -143,7 +147,48 @@ func (p *c20) Run(w *lib.Worker, idx int, r *lib.Rand) lib.Case {
 	for s := 0; s < steps; s++ {
 		t := pickTarget()
 		var op string
-		switch r.Weighted(3, 2, 3, 2, 2, 1) {
+		switch r.Weighted(3, 2, 3, 2, 2, 1, 1) {
+		case 6:
+			// a pooled operand, as the validators produce them (verif hook): it receives messages and match counts
+			// through the public methods, is merged once into a target and thereby given back to its pool
+			o := validate.VerifBorrowResult()
+			mo := &mres{}
+			var em, wm []string
+			for j, k := 0, r.Range(0, 3); j < k; j++ {
+				m := c20Pool[r.Intn(len(c20Pool))]
+				if r.Bool() {
+					o.AddErrors(mkErr(r, m))
+					mo.errs = addSet(mo.errs, m)
+					em = append(em, m)
+				} else {
+					o.AddWarnings(mkErr(r, m))
+					mo.warns = addSet(mo.warns, m)
+					wm = append(wm, m)
+				}
+			}
+			for j, k := 0, r.Range(0, 3); j < k; j++ {
+				o.Inc()
+				mo.count++
+			}
+			kind := []string{"Merge", "MergeAsErrors", "MergeAsWarnings"}[r.Intn(3)]
+			op = fmt.Sprintf("r%d.%s(pooled{errors:%q warnings:%q count:%d})", t, kind, em, wm, mo.count)
+			switch kind {
+			case "Merge":
+				mod[t].errs = addSet(mod[t].errs, mo.errs...)
+				mod[t].warns = addSet(mod[t].warns, mo.warns...)
+				real[t].Merge(o)
+			case "MergeAsErrors":
+				mod[t].errs = addSet(addSet(mod[t].errs, mo.errs...), mo.warns...)
+				real[t].MergeAsErrors(o)
+			default:
+				mod[t].warns = addSet(addSet(mod[t].warns, mo.errs...), mo.warns...)
+				real[t].MergeAsWarnings(o)
+			}
+			mod[t].count += mo.count
+			pooledMerges++
+			if mo.count > 0 || len(em)+len(wm) > 0 {
+				nontrivial = true
+			}
 		case 0, 1:
 			isErr := r.Bool()
 			k := r.Range(0, 4)
@@ -240,6 +285,12 @@ func (p *c20) Run(w *lib.Worker, idx int, r *lib.Rand) lib.Case {
 			return c
 		}
 	}
+	if n := validate.VerifEventTotal(); n > 0 {
+		st := validate.VerifSnapshot()
+		c.Viol = &lib.Violation{What: fmt.Sprintf("pool discipline violated while pooled operands were merged through the public methods: %v", st.EventCounts), Detail: map[string]any{"operations": trace, "pool_events": st.Events}}
+		return c
+	}
+	c.Nums = map[string]int64{"pooled_operands_merged": int64(pooledMerges)}
 	c.Hash = lib.Hash64([]byte(strings.Join(trace, ";")))
 	c.Nontrivial = nontrivial
 	c.Tags = []string{boolTag("nil-in-population", nilIdx >= 0)}
@@ -250,4 +301,11 @@ func (p *c20) Run(w *lib.Worker, idx int, r *lib.Rand) lib.Case {
 		c.Sample = map[string]any{"population": n, "nil_index": nilIdx, "first_operations": trace, "steps": steps}
 	}
 	return c
+}
+
+func (p *c20) Finish(a *lib.Aggregate) (broken []string) {
+	if a.Nums["pooled_operands_merged"] == 0 {
+		broken = append(broken, "no pooled operand was ever merged")
+	}
+	return
 }
